@@ -68,7 +68,7 @@ SERS = [
 FIXED = {(2, 3): [0b011101, 0b000101], (3, 2): [0b100110, 0b001101], (3, 3): [0b100010101, 0b000110011]}
 GEN = 'verif-harness c14'
 # generated_by strings of product H (plain / comma and braces / quotes, backslash, non-ASCII)
-GENS = [GEN, 'tool 1.9, patched {x}', 'gen "q" \\ \u65e5\u672c']
+GENS = [GEN, 'tool 1.9, patched {x}', 'gen "q" \\ \u65e5\u672c', 'C:\\tools\\biom\\']   # the last one ends in a backslash
 COLON = 'space-before-colon'
 
 
